@@ -168,7 +168,10 @@ class C05(Prop):
             'mutation == Spec apply, outcome == table prediction; wrong key / swapped / repeated / reordered signatures '
             'and wrong type byte must be rejected; VerifySignature on the signed spend; insert positions beyond the end, '
             'inapplicable edits (IndexError); multisig with different hash types per signature; a sweep over all 256 '
-            'hash-type bytes (base case + 5 edits each)')
+            'hash-type bytes (base case + 5 edits each); HISTORIES (c05.seq): shared transaction / script objects verified '
+            'again with other flags, another hash type of the same mode, at another index, after a verify that raised, '
+            'after in-place edits, flag-dependent verdicts (P2SH / CLEANSTACK / NULLDUMMY), one key object signing '
+            'several digests; > 256 inputs with signing index above 256')
 
     # ---- setup ----------------------------------------------------------------------------------
     def setup(self):
@@ -351,6 +354,11 @@ class C05(Prop):
             for ht in range(256):
                 out.append((('p2pk', 'p2pkh', 'ms2of3', 'p2sh-p2pk')[rep], ht, ((3, 3, 1), (2, 1, 1), (4, 4, 3), (3, 2, 0))[rep],
                             rep, 'sweep'))
+        # more than 256 inputs, signing index above 256 (run-time integers that CPython does not intern: `is` in place
+        # of `==` on an index shows only there), with and without matching output
+        for k, tpl in enumerate(('p2pk', 'ms2of3', 'p2sh-p2pkh') if big else ('p2pk', 'ms2of3')):
+            for q, ht in enumerate((1, 2, 3, 0x81, 0x82, 0x83)):
+                out.append((tpl, ht, ((259, 259, 257), (260, 3, 258), (258, 258, 257))[(k + q) % 3], 0, 'sweep'))
         return out
 
     def pick_flags(self, rng, tpl):
@@ -411,21 +419,36 @@ class C05(Prop):
         yield mk('c05.vsig', 'reject-precondition', cls, txfmt.show_tx(fund), txfmt.show_tx(tw), idx,
                  tag=tag + '/vsig-other-tx')
         # (2) every single edit, signature kept
-        edits = self.edits(rng, t, idx)
-        if not full:
-            # hash-type sweep: another output's value, another input's sequence, the own output, an append, nLockTime
-            want = ['va:%d:' % (0 if idx != 0 else nout - 1), 'sq:%d:' % ((idx + 1) % nin), 'va:%d:' % idx,
-                    'ii:%d:' % nin, 'lt:']
-            edits = [next((e for e in edits if e.startswith(w)), None) for w in want]
-            edits = [e for e in edits if e]
+        if full:
+            edits = self.edits(rng, t, idx)
+        else:
+            # sweep: another output's value, another input's sequence, the own output, an append, nLockTime, the own
+            # sequence
+            edits = []
+            ko = 0 if idx != 0 else nout - 1
+            if 0 <= ko < nout:
+                edits.append('va:%d:%d' % (ko, t['vout'][ko][0] ^ 1))
+            if nin >= 2:
+                kj = (idx + 1) % nin
+                edits.append('sq:%d:%d' % (kj, t['vin'][kj][3] ^ 1))
+            if idx < nout:
+                edits.append('va:%d:%d' % (idx, t['vout'][idx][0] ^ 1))
+            edits.append('ii:%d:%s,%d,,%d' % (nin, '11' * 32, 7, 5))
+            edits.append('lt:%d' % (t['lock'] ^ 1))
+            edits.append('sq:%d:%d' % (idx, t['vin'][idx][3] ^ 1))
         for e in edits:
             yield case('accept', ssig, e)
+        if m >= 1 and (full or nin > 256):
+            yield from self.history(rng, tpl, ht, t, idx, fl, keys, signers, code, spk, mk_sig, sigs, cls, tag)
         if not full:
             return
         # (2b) multisig with DIFFERENT hash types on the signatures: every supplied signature must still verify, so an
         #      edit keeps the verdict only if it is uncommitted under every hash type involved
         if m >= 2:
-            mix = [ht] + [rng.choice([x for x in HT_DEFINED + HT_UNDEFINED if x != ht]) for _ in range(m - 1)]
+            # the second signature: same mode (`& 0x1f`) but other high bits — a digest shared between the signatures
+            # of one CHECKMULTISIG must be keyed on the whole byte; further ones: any other type
+            mix = [ht, ht ^ rng.choice([0x80, 0x20, 0x40, 0xc0, 0xe0])] + \
+                [rng.choice([x for x in HT_DEFINED + HT_UNDEFINED if x != ht]) for _ in range(m - 2)]
             msigs = [self.sign(keys[k], code, tx, idx, h) for k, h in zip(signers, mix)]
             mhts = ','.join(str(h) for h in mix)
             yield case('accept', mk_sig(msigs), '-', sub='/mixed', hts=mhts)
@@ -471,6 +494,110 @@ class C05(Prop):
             yield mk('c05.case', exp, cls, sig_j.hex(), spk.hex(), fl, text2, idx, hts, '-', tag=tag + '/swapped')
             yield mk('c05.case', exp, cls, sig_i.hex(), spk.hex(), fl, text2, jdx, hts, '-', tag=tag + '/swapped')
 
+    # ---- histories: several calls in ONE case, on shared objects (state left behind by an earlier call) ----------
+    def history(self, rng, tpl, ht, t, idx, fl, keys, signers, code, spk, mk_sig, sigs, cls, tag):
+        """c05.seq: VerifyScript / RawSignatureHash / in-place edits on the SAME transaction and CScript objects, in
+        one process, each step answered statelessly by the model: verify after verify with other flags, another hash
+        type with the same `& 0x1f` and the same ANYONECANPAY bit (a digest memo keyed on too little), after a verify
+        that raised, at another index of the same object, after the object was edited in place and edited back; one
+        key object signing several digests."""
+        nin, nout = len(t['vin']), len(t['vout'])
+        m = len(sigs)
+        tx = txfmt.to_tx(t)
+        ssig = mk_sig(sigs)
+        ht2 = ht ^ 0x20                                        # same mode, same ANYONECANPAY bit, other digest
+        ssig2 = mk_sig([self.sign(keys[k], code, tx, idx, ht2) for k in signers])
+        other = keys[-1]
+        bad = mk_sig([self.sign(other, code, tx, idx, ht)] + sigs[1:])
+        scripts = [ssig, spk, bad, ssig2, code, b'\x6a']
+        txs = [txfmt.show_tx(t)]
+        p2 = [f for f in ([1, 3, 5, 7, 9, 15] if tpl.startswith('p2sh') else [0, 1, 2, 3, 5, 7, 8, 11]) if f != fl]
+        fl2 = rng.choice(p2)
+        V = lambda a, f, ti, i: 'V!%d!1!%d!%d!%d' % (a, f, ti, i)
+        steps = ['F', V(0, fl, 0, idx),
+                 'H!4!0!%d!%d' % (idx, ht), 'H!4!0!%d!%d' % (idx, ht2), 'H!4!0!%d!%d' % (idx, ht ^ 0x80),
+                 V(3, fl, 0, idx), V(0, fl2, 0, idx),
+                 V(2, fl, 0, idx), V(0, fl, 0, idx),            # after a verify that raised VerifyScriptError
+                 V(5, fl, 0, idx)]                              # ... and one that raises inside EvalScript (OP_RETURN)
+        # verdicts that DEPEND on the flags, same scripts and transaction object (a memo that ignores the flags):
+        # P2SH not unwrapped without the flag (wrong inner signature passes), extra stack item vs CLEANSTACK,
+        # non-empty multisig dummy vs NULLDUMMY
+        if tpl.startswith('p2sh'):
+            steps += [V(2, 0, 0, idx), V(2, 1, 0, idx)]
+        scripts.append(b'\x51' + ssig)                          # 6: one more item at the bottom of the stack
+        steps += [V(6, 1, 0, idx), V(6, 5, 0, idx)]
+        if ssig[:1] == b'\x00' and len(sigs) >= 1 and 'ms' in tpl:
+            scripts.append(b'\x51' + ssig[1:])                  # 7: dummy OP_1 instead of OP_0
+            steps += [V(7, 1, 0, idx), V(7, 3, 0, idx)]
+        if nin >= 2:
+            jdx = (idx + 1) % nin
+            t2 = dict(t, vin=list(t['vin']))
+            h, pn, s_, q = t2['vin'][jdx]
+            t2['vin'][jdx] = (bytes(rng.getrandbits(8) for _ in range(32)), pn, s_, q)
+            tx2 = txfmt.to_tx(t2)
+            a = len(scripts)
+            scripts.append(mk_sig([self.sign(keys[k], code, tx2, idx, ht) for k in signers]))
+            scripts.append(mk_sig([self.sign(keys[k], code, tx2, jdx, ht) for k in signers]))
+            txs.append(txfmt.show_tx(t2))
+            steps += [V(a, fl, 1, idx), V(a + 1, fl, 1, jdx), V(a, fl, 1, jdx), V(a, fl, 1, idx),
+                      'H!4!1!%d!%d' % (jdx, ht), 'H!4!1!%d!%d' % (idx, ht)]
+        q = t['vin'][idx][3]
+        steps += ['E!0!sq:%d:%d' % (idx, q ^ 1), V(0, fl, 0, idx), 'H!4!0!%d!%d' % (idx, ht),
+                  'E!0!sq:%d:%d' % (idx, q), V(0, fl, 0, idx),
+                  'E!0!ss:%d:51' % idx, 'E!0!lt:%d' % (t['lock'] ^ 1), V(0, fl, 0, idx),
+                  'E!0!lt:%d' % t['lock'], 'E!0!ri:%d' % nin, V(3, fl, 0, idx), 'K!%d' % min(2 + m, 4)]
+        yield mk('c05.seq', cls, '~'.join(txs), ','.join(x.hex() for x in scripts), '~'.join(steps), tag=tag + '/history')
+
+    def run_history(self, cls, txs, scripts, steps):
+        C, S, E, W = self.C, self.S, self.E, self.W
+        # the objects of the history: built ONCE, shared by all steps (edits need the mutable class)
+        tobj = [txfmt.to_tx(txfmt.parse_tx(x), mutable=True) for x in txs.split('~')]
+        sobj = [S.CScript(bytes.fromhex(x)) for x in scripts.split(',')]
+        outs = []
+        for k, st in enumerate(steps.split('~')):
+            f = st.split('!')
+            if f[0] == 'F':
+                def run():
+                    E.VerifyScript(S.CScript(b'\x51'), S.CScript(b'\x51'), C.CTransaction(), 0)
+                    return 'ok'
+            elif f[0] == 'V':
+                def run(f=f, k=k):
+                    # alternate between the shared script objects and equal-but-not-identical fresh ones
+                    sig, spk = sobj[int(f[1])], sobj[int(f[2])]
+                    if (k % 3 == 2) ^ (cls == 'i'):
+                        sig, spk = S.CScript(bytes(bytearray(sig))), S.CScript(bytes(bytearray(spk)))
+                    tx = tobj[int(f[4])]
+                    if cls == 'i' and k % 2:
+                        tx = C.CTransaction.from_tx(tx)
+                    E.VerifyScript(sig, spk, tx, int(str(int(f[5]))), flags=self.flagset(int(f[3])))
+                    return 'ok'
+            elif f[0] == 'H':
+                def run(f=f):
+                    h, err = S.RawSignatureHash(sobj[int(f[1])], tobj[int(f[2])], int(f[3]), int(f[4]))
+                    return bytes(h).hex() + ('' if err is None else ':err')
+            elif f[0] == 'E':
+                def run(st=st, f=f):
+                    try:
+                        self.apply_edit(tobj[int(f[1])], st.split('!', 2)[2])
+                    except IndexError:
+                        return 'inapplicable'
+                    return 'applied'
+            elif f[0] == 'K':
+                def run(f=f):
+                    import hashlib
+                    n = int(f[1])
+                    key = W.CBitcoinSecret.from_secret_bytes(hashlib.sha256(b'c05-K%d' % n).digest(), compressed=bool(n % 2))
+                    ds = [hashlib.sha256(bytes([j]) * 3).digest() for j in range(n)]
+                    sg = [key.sign(d) for d in ds]                      # ONE key object, n signatures
+                    rows = [''.join('1' if key.pub.verify(ds[kk], sg[j]) else '0' for kk in range(n)) for j in range(n)]
+                    sg2 = [key.sign(d) for d in reversed(ds)]           # ... and again after having verified
+                    ok2 = all(key.pub.verify(d, s_) for d, s_ in zip(reversed(ds), sg2))
+                    return '/'.join(rows) if ok2 else 'resign-failed'
+            else:
+                raise ValueError(st)
+            outs.append(guarded(run))
+        return ';'.join(outs)
+
     # ---- the table on its own (exhaustive small sub-domain, no signatures) -----------------------------
     # covered inside every c05.case reply (class column); nothing else to enumerate here.
 
@@ -479,6 +606,8 @@ class C05(Prop):
         a = c['args']
         if c['op'] == 'c05.tmpl':
             return '\t'.join(['c05.tmpl'] + list(a[:4]))
+        if c['op'] == 'c05.seq':
+            return '\t'.join(['c05.seq'] + list(a[1:]))
         if c['op'] == 'c05.case':
             expect, cls, sig, spk, fl, text, idx, ht, edit = a
             return '\t'.join(['c05.case', sig, spk, fl, text, idx, ht, edit])
@@ -565,6 +694,8 @@ class C05(Prop):
             etx = mtx if cls == 'm' else C.CTransaction.from_tx(mtx)
             edited = self.verify(sig, spk, etx, idx, fl)
             return '%s#%s#%s' % (base, edited, txfmt.show_tx(txfmt.from_tx(etx)))
+        if c['op'] == 'c05.seq':
+            return self.run_history(*a)
         if c['op'] == 'c05.tmpl':
             kind, m, keys, sigs, spk_used, ssig_used = a
             return guarded(lambda: self.lib_template(kind, int(m), [bytes.fromhex(x) for x in keys.split(',')],
@@ -603,6 +734,9 @@ class C05(Prop):
         return outcome == 'ok' if expect == 'accept' else outcome == 'err:validation'
 
     def agree(self, c, io, mo):
+        if c['op'] == 'c05.seq':
+            # histories: every step must equal the model's stateless answer; the first real verify must accept
+            return io == mo and io.split(';')[1] == 'ok'
         if c['op'] == 'c05.tmpl':
             # library-built == Spec template == what the harness signed and verified
             return io == mo and io == c['args'][4] + '#' + c['args'][5]
